@@ -117,7 +117,7 @@ func main() {
 	if *replayFile != "" {
 		os.Exit(replayViolation(*prop, *tier, *replayFile))
 	}
-	checkCleanupCollision = *prop == "C03" || *prop == "C01"
+	checkCleanupCollision = *prop == "C03" // key scenarios only: emulated keys do not take part in the holder count (C03 speaks of keys)
 	checkDisconnect = *prop == "C01" // the disconnect clause belongs to C01; other properties only use the replay for conformance
 	jobs := jobsFor(*prop, *tier)
 	if *list {
